@@ -55,9 +55,10 @@ Theorem C15_key_order_preserved_partial :
 Proof. exact (key_order_gen fix_negzero). Qed.
 Print Assumptions C15_key_order_preserved_partial.
 
-(* ORDER with the proposed repair (fixes/C15-float-negzero.diff: -0.0 is normalised to +0.0 before
-   the bits are mangled): -0.0 no longer needs to be excluded. *)
-Theorem C15_key_order_preserved_with_negzero_fix :
+(* What a normalisation of -0.0 to +0.0 before the bits are mangled would give (the encoder variant
+   enc_key_gen true; NOT the code as it is, and not proposed as a repair since the test suite pins
+   "-0.0 sorts before +0.0"): -0.0 would no longer need to be excluded. *)
+Theorem C15_key_order_preserved_if_negzero_normalised :
   forall (mkl : N) (ty : sqltype) (ml : N) (a b : sqlval) (ka : bytes) (na : N) (kb : bytes) (nb : N),
   mkl < 4294967296 ->
   val_ok ty ml a = true -> val_ok ty ml b = true ->
@@ -65,7 +66,7 @@ Theorem C15_key_order_preserved_with_negzero_fix :
   enc_key_gen true mkl ty ml a = Ok (ka, na) -> enc_key_gen true mkl ty ml b = Ok (kb, nb) ->
   sql_compare a b = Some (bcmp ka kb).
 Proof. exact (key_order_gen true). Qed.
-Print Assumptions C15_key_order_preserved_with_negzero_fix.
+Print Assumptions C15_key_order_preserved_if_negzero_normalised.
 
 (* The full statement is false for the code as it is: *)
 (* (1) FLOAT +0.0 and -0.0 compare equal, their keys differ (80 80 00.. / 80 7f ff..). *)
